@@ -3,6 +3,7 @@ module namespace is passed in (shadow or real), so both see identical numbers.""
 import random
 
 F0 = 29.98      # MHz -> wavelength 10 m; segments ~ lambda/20
+CAT_F = {'G24': 0.1}          # members with their own frequency
 
 # name: (objects, ground?)   object = ('w', nseg, p1, p2, r) | ('a', nseg, R, a1, a2, r) | ('h', nseg, len, turn, r, rx, ry)
 CAT = {
@@ -48,6 +49,8 @@ CAT = {
     # ... and whose FIRST end is met by the first end of a later wire
     'G22': ([('w', 4, (0.0, 0.0, 0.0), (1.5, 0.3, 0.2), 0.002, 2),
              ('w', 4, (0.0, 0.0, 0.0), (-1.2, 1.9, 1.4), 0.004)], False),
+    # a fat mast at low frequency: radius 0.25 m, 1 m segments (4 radii), below 1e-4 wavelength at 0.1 MHz and above it at 0.125 MHz
+    'G24': ([('w', 12, (0.0, 0.0, 0.0), (0.0, 0.0, 12.0), 0.25)], True),
     'G16': ([('w', 4, (0.2, 0.1, 2.0), (0.0, 0.0, 0.0), 0.002),
              ('w', 2, (0.2, 0.1, 2.0), (1.1, 0.4, 2.1), 0.003)], True),
 }
@@ -72,7 +75,9 @@ def spec(name, seed=0, nmul=1, rmul=1):
     return out, gnd
 
 
-def build(mm, name, seed=0, f=F0, media='ideal', tags=None, nmul=1, rmul=1):
+def build(mm, name, seed=0, f=None, media='ideal', tags=None, nmul=1, rmul=1):
+    if f is None:
+        f = CAT_F.get(name, F0)
     """Returns a Mininec model of catalogue member `name` built with module namespace mm."""
     objs, gnd = spec(name, seed, nmul, rmul)
     geo = []
